@@ -94,9 +94,17 @@ let run_ws (c : case) : string =
     List.iteri (fun i sk ->
       if List.nth iclosed i = "1" then begin
         let frame = bytes_of_hex sk and want = bytes_of_hex (List.nth iacc i) in
-        let v = spec_verdict Decoded true frame want in
+        (* the configured content size is part of the strict reading only when it is the content's length *)
+        let cfg = (match ops with
+          | a :: _ when String.length a > 2 && String.sub a 0 2 = "A:" ->
+            (try List.assoc "sz" (List.filter_map (fun x -> match String.index_opt x '=' with
+                 | Some j -> Some (String.sub x 0 j, int_of_string (String.sub x (j+1) (String.length x - j - 1))) | None -> None)
+                 (String.split_on_char ',' (String.sub a 2 (String.length a - 2)))) with Not_found -> 0)
+          | _ -> 0) in
+        let strict = (cfg = 0 || cfg = List.length want) && i = 0 in
+        let v = spec_verdict Decoded strict frame want in
         if v <> "ok" then o := Printf.sprintf " oracle_spec=%s(epoch%d)" v i;
-        let vs = spec_verdict Stored true frame want in
+        let vs = spec_verdict Stored strict frame want in
         if vs <> "ok" && v = "ok" then o := !o ^ Printf.sprintf " oracle_spec_stored=%s(epoch%d)" vs i
       end) isinks
   with _ -> ());
@@ -197,3 +205,23 @@ let run_cr (c : case) : string =
     | Some h when h <> "-" && fault = 0 -> " oracle_spec=" ^ spec_verdict Decoded true (bytes_of_hex h) data
     | _ -> "") in
   m ^ o
+
+(* ---- headers (C19) ---- *)
+let le32_list m = [byte_tab.(m land 255); byte_tab.((m lsr 8) land 255); byte_tab.((m lsr 16) land 255); byte_tab.((m lsr 24) land 255)]
+let vfh_of (input : z list) : string =
+  let ((e, _), _) = parse_headers (nat_of_int (List.length input + 1)) { s_rem = input; s_calls = Z0; s_fail = Z0; s_consumed = Z0 } in
+  (match e with ENil -> "1nil" | EBadFrame -> "0nil" | e -> "0" ^ cls e)
+let run_hdr (c : case) : string =
+  let d = get_int c "d" and sz = get_bytes c "sz" in
+  let cks = List.map int_of_string (get_list c "cks") in
+  let one ck =
+    let input = le32_list 0x184D2204 @ [byte_tab.(d land 255); byte_tab.(d lsr 8)] @ (if d land 8 <> 0 then sz else []) @ [byte_tab.(ck)] in
+    let r0 = new_reader { s_rem = input; s_calls = Z0; s_fail = Z0; s_consumed = Z0 } in
+    let (r1, res) = rstep r0 (RRead Z0) in
+    let e = (match res with RRes (_, e, _) -> cls e | _ -> "?") in
+    let size = (match rstep r1 RSize with (_, RSz v) -> z_to_dec v | _ -> "?") in
+    (vfh_of input, e, size) in
+  let rs = List.map one cks in
+  Printf.sprintf "vfh=%s rd=%s size=%s" (String.concat "," (List.map (fun (a,_,_) -> a) rs))
+    (String.concat "," (List.map (fun (_,b,_) -> b) rs)) (String.concat "," (List.map (fun (_,_,c) -> c) rs))
+let run_hdrm (c : case) : string = "vfh=" ^ vfh_of (get_bytes c "in")
